@@ -258,7 +258,9 @@ fn parse_rules(input: &mut StepParser, ss: &mut StyleSheetTransformer) {
     while !input.is_exhausted() {
         let keeps_file_start = match input.peek() {
             Ok(peek) => match &*peek {
-                Token::AtKeyword(x) => matches!(&**x, "import" | "charset"),
+                Token::AtKeyword(x) => {
+                    x.eq_ignore_ascii_case("import") || x.eq_ignore_ascii_case("charset")
+                }
                 _ => false,
             },
             Err(_) => false,
@@ -278,7 +280,8 @@ fn parse_at_rule(
     let Ok(peek) = input.peek() else { return false };
     if let Token::AtKeyword(x) = &*peek {
         input.next().ok();
-        let at_keyword: &str = &x;
+        // at-rule names are ASCII case-insensitive
+        let at_keyword = x.to_ascii_lowercase();
         if at_keyword == "import" && ss.options.import_sign.is_some() {
             // process at-import if needed
             let import_sign = ss.options.import_sign.clone().unwrap();
@@ -394,9 +397,8 @@ fn parse_at_rule(
             let st = StepToken::wrap(Token::AtKeyword(x.clone()), peek.position);
             let output_index = ss.cur_output_utf8_len();
             ss.append_token(st, input, None);
-            let x: &str = &x;
             let contain_rule_list = matches!(
-                x,
+                at_keyword.as_str(),
                 "media" | "supports" | "document" | "layer" | "container" | "scope" | "starting-style"
             );
             loop {
